@@ -151,6 +151,9 @@ func (ex *Exec) loopArrive(fr *Frame, from, head *ssa.BasicBlock, li *loopInfo) 
 			for i, inv := range spec.Invariants {
 				ex.oblige("inv-step", fmt.Sprintf("%s:%03d", lname, i), li.pos, "loop invariant preserved: "+inv.Text, ex.evalBool(inv.E, env()))
 			}
+			for i, st := range spec.Steps {
+				ex.oblige("inv-step", fmt.Sprintf("%s:step%03d", lname, i), li.pos, "holds whenever the loop goes round: "+st.Text, ex.evalBool(st.E, env()))
+			}
 			if spec.Decreases != nil {
 				e := env()
 				m := ex.evalInt(spec.Decreases.E, e)
